@@ -9,6 +9,10 @@
    delivers reply packets (fragments of any version of the zone, in any order, repeated) and
    "this zone has no schedule" replies.
 
+   _update_payload_set has two callers: _handle_msg (a reply packet that is overheard: Receive)
+   and the loop of _get_schedule, which asks the controller for the first fragment the set lacks
+   until a schedule has been assembled (Fetch: the library itself collects the reply packets).
+
    Stated assumption (DESIGN 4/C17): the compressed stream decodes only if the set holds all
    the fragments of one version in their places (zlib's checksum) - Pure(ps).  The real runs
    test it with real packets.  No bounds in here.                                        *)
@@ -20,8 +24,9 @@ CONSTANTS Zones,      \* zone ids
           ZoneOf,     \* [Vers -> Zones]
           OwnDefault, \* BOOLEAN: TRUE = every Schedule starts with (and "no schedule" assigns) a list of its own
                       \* (the repair, /repo fix); FALSE = the one module-level list shared by all (pinned commit)
-          NoSchedOn   \* BOOLEAN: deliver "no schedule" replies (the repository's decoder rejects the
+          NoSchedOn,  \* BOOLEAN: deliver "no schedule" replies (the repository's decoder rejects the
                       \* 7-byte RP 0404 ...01FF frame, so no packet can reach that branch: FALSE in MC)
+          FetchOn     \* BOOLEAN: the environment also calls get_schedule() (Fetch)
 
 VARIABLES shared,     \* contents of the module-level EMPTY_PAYLOAD_SET list
           ref,        \* [Zones -> {"shared", "own"}]  what Schedule._payload_set refers to
@@ -29,56 +34,100 @@ VARIABLES shared,     \* contents of the module-level EMPTY_PAYLOAD_SET list
           full,       \* [Zones -> "unset" | "none" | version]   Schedule._full_schedule
           got,        \* [Zones -> SUBSET fragment]    fragments ever delivered to the zone
           nev,        \* events so far (bounded in MC_*)
-          h           \* one-step history (pre-state, event) for -dump
+          h           \* one-step history (pre-state, event, how the call ended) for -dump
 vars == <<shared, ref, own, full, got, nev, h>>
 
 NoFrag  == <<"-", 0>>                                   \* the None slot
 FragsOf(v) == {<<v, k>> : k \in 1..NF[v]}
 Frags   == UNION {FragsOf(v) : v \in Vers}
-Cur(z)  == IF ref[z] = "shared" THEN shared ELSE own[z]
 InitSet(f) == [i \in 1..NF[f[1]] |-> IF i = f[2] THEN f ELSE NoFrag]      \* init_payload_set
 \* fragz_to_full_sched succeeds (no zlib.error) iff ...
 Pure(ps) == \E v \in Vers : Len(ps) = NF[v] /\ \A i \in 1..Len(ps) : ps[i] = <<v, i>>
 Pre == [shared |-> shared, ref |-> ref, own |-> own, full |-> full, got |-> got, nev |-> nev]
 
+\* the part of the state the code writes, as one record (so that a call can be composed of several updates)
+St == [shared |-> shared, ref |-> ref, own |-> own, full |-> full]
+CurOf(s, z) == IF s.ref[z] = "shared" THEN s.shared ELSE s.own[z]
+Cur(z)  == CurOf(St, z)
+Holes(ps) == {i \in 1..Len(ps) : ps[i] = NoFrag}
+
 Init == /\ shared = <<NoFrag>>
         /\ ref = [z \in Zones |-> IF OwnDefault THEN "own" ELSE "shared"]
         /\ own = [z \in Zones |-> IF OwnDefault THEN <<NoFrag>> ELSE <<>>]
         /\ full = [z \in Zones |-> "unset"] /\ got = [z \in Zones |-> {}] /\ nev = 0
-        /\ h = [pre |-> <<>>, ev |-> <<"init", "-", "-", 0>>]
+        /\ h = [pre |-> <<>>, ev |-> <<"init", "-", "-", 0>>, exc |-> ""]
+
+(* self._payload_set = self._update_payload_set(self._payload_set, payload), payload = fragment f *)
+Upd(s, z, f) ==
+  LET cur == CurOf(s, z) IN
+  IF NF[f[1]] # Len(cur)                                   \* "sched has changed": start a new set (not processed)
+  THEN [s EXCEPT !.ref[z] = "own", !.own[z] = InitSet(f)]
+  ELSE LET cur2 == [cur EXCEPT ![f[2]] = f]                \* payload_set[n-1] = payload  (IN PLACE)
+           sh2  == IF s.ref[z] = "shared" THEN cur2 ELSE s.shared
+           own2 == IF s.ref[z] = "own" THEN [s.own EXCEPT ![z] = cur2] ELSE s.own
+           s2   == [s EXCEPT !.shared = sh2, !.own = own2]
+       IN IF Holes(cur2) # {}                              \* None in payload_set
+          THEN s2
+          ELSE IF cur2 = sh2                               \* payload_set == EMPTY_PAYLOAD_SET (by value; with
+                                                           \* OwnDefault the constant is never written: sh2 = <<NoFrag>>)
+          THEN [s2 EXCEPT !.full[z] = "none"]
+          ELSE IF Pure(cur2)                               \* decompresses: the schedule is set
+          THEN [s2 EXCEPT !.full[z] = f[1]]
+          ELSE [s2 EXCEPT !.ref[z] = "own", !.own[z] = InitSet(f)]      \* zlib.error: restart with this one
+
+Set(s) == /\ shared' = s.shared /\ ref' = s.ref /\ own' = s.own /\ full' = s.full
 
 (* _handle_msg(RP 0404 with a fragment)  ->  _update_payload_set(self._payload_set, payload) *)
 Receive(z, f) ==
   /\ ZoneOf[f[1]] = z
   /\ got' = [got EXCEPT ![z] = @ \cup {f}]
-  /\ nev' = nev + 1 /\ h' = [pre |-> Pre, ev |-> <<"frag", z, f[1], f[2]>>]
-  /\ LET cur == Cur(z) IN
-     IF NF[f[1]] # Len(cur)                                   \* "sched has changed": start a new set
-     THEN /\ ref' = [ref EXCEPT ![z] = "own"] /\ own' = [own EXCEPT ![z] = InitSet(f)]
-          /\ UNCHANGED <<shared, full>>
-     ELSE LET cur2 == [cur EXCEPT ![f[2]] = f]                \* payload_set[n-1] = payload  (IN PLACE)
-              sh2  == IF ref[z] = "shared" THEN cur2 ELSE shared
-              own2 == IF ref[z] = "own" THEN [own EXCEPT ![z] = cur2] ELSE own
-          IN IF \E i \in 1..Len(cur2) : cur2[i] = NoFrag      \* None in payload_set
-             THEN /\ shared' = sh2 /\ own' = own2 /\ UNCHANGED <<ref, full>>
-             ELSE IF cur2 = sh2                               \* payload_set == EMPTY_PAYLOAD_SET (by value; with
-                                                              \* OwnDefault the constant is never written: sh2 = <<NoFrag>>)
-             THEN /\ shared' = sh2 /\ own' = own2 /\ full' = [full EXCEPT ![z] = "none"] /\ UNCHANGED ref
-             ELSE IF Pure(cur2)                               \* decompresses: the schedule is set
-             THEN /\ shared' = sh2 /\ own' = own2 /\ full' = [full EXCEPT ![z] = f[1]] /\ UNCHANGED ref
-             ELSE /\ shared' = sh2 /\ ref' = [ref EXCEPT ![z] = "own"]     \* zlib.error: restart with this one
-                  /\ own' = [own2 EXCEPT ![z] = InitSet(f)] /\ UNCHANGED full
+  /\ nev' = nev + 1 /\ h' = [pre |-> Pre, ev |-> <<"frag", z, f[1], f[2]>>, exc |-> ""]
+  /\ Set(Upd(St, z, f))
 
 (* RP 0404 ... 01FF "zone has no schedule": payload_set = EMPTY_PAYLOAD_SET; _proc_payload_set *)
 NoSched(z) ==
   /\ NoSchedOn
   /\ ref' = [ref EXCEPT ![z] = IF OwnDefault THEN "own" ELSE "shared"] /\ full' = [full EXCEPT ![z] = "none"]
   /\ own' = IF OwnDefault THEN [own EXCEPT ![z] = <<NoFrag>>] ELSE own
-  /\ nev' = nev + 1 /\ h' = [pre |-> Pre, ev |-> <<"nosched", z, "-", 0>>]
+  /\ nev' = nev + 1 /\ h' = [pre |-> Pre, ev |-> <<"nosched", z, "-", 0>>, exc |-> ""]
   /\ UNCHANGED <<shared, got>>
+
+(* get_schedule(force_io=True) on zone z whilst the controller holds version v and its change counter has gone up
+   since the zone's last fetch (this or another zone's schedule was edited: "keep frags, maybe only other scheds have
+   changed"); nobody else holds the schedule lock, every exchange succeeds, nothing is overheard meanwhile (all that
+   is C18's).  _get_schedule:  _full_schedule = {};  _payload_set[0] = None  (in place);
+       while frag_num := next(i for i, f in enumerate(_payload_set, 1) if f is None):      \* no slot is None:
+           _payload_set = _update_payload_set(_payload_set, RP for <<v, frag_num>>)        \* StopIteration -> RuntimeError
+           if _full_schedule: break
+   Result: [s: the state afterwards, exc: "" | "StopIteration" | "BadRequest" | "NoEnd", del: fragments delivered]. *)
+ResetFirst(s, z) ==
+  LET cur2 == [CurOf(s, z) EXCEPT ![1] = NoFrag]
+  IN [s EXCEPT !.full[z] = "unset",
+               !.shared = IF s.ref[z] = "shared" THEN cur2 ELSE @,
+               !.own[z] = IF s.ref[z] = "own" THEN cur2 ELSE @]
+RECURSIVE FetchLoop(_, _, _, _)
+FetchLoop(s, z, v, fuel) ==
+  LET holes == Holes(CurOf(s, z)) IN
+  IF holes = {} THEN [s |-> s, exc |-> "StopIteration", del |-> {}]
+  ELSE LET k == CHOOSE i \in holes : \A j \in holes : i <= j IN
+       IF k > NF[v] THEN [s |-> s, exc |-> "BadRequest", del |-> {}]       \* the controller has no such fragment
+       ELSE IF fuel = 0 THEN [s |-> s, exc |-> "NoEnd", del |-> {}]        \* ("TODO: potential for infinite loop?")
+       ELSE LET s2 == Upd(s, z, <<v, k>>) IN
+            IF s2.full[z] # "unset" THEN [s |-> s2, exc |-> "", del |-> {<<v, k>>}]
+            ELSE LET r == FetchLoop(s2, z, v, fuel - 1) IN [r EXCEPT !.del = @ \cup {<<v, k>>}]
+FetchResult(s, z, v) == FetchLoop(ResetFirst(s, z), z, v, 3 * NF[v] + 3)
+
+Fetch(z, v) ==
+  /\ FetchOn /\ ZoneOf[v] = z
+  /\ LET r == FetchResult(St, z, v) IN
+     /\ Set(r.s)
+     /\ got' = [got EXCEPT ![z] = @ \cup r.del]
+     /\ h' = [pre |-> Pre, ev |-> <<"fetch", z, v, 0>>, exc |-> r.exc]
+  /\ nev' = nev + 1
 
 Next == \/ \E z \in Zones, f \in Frags : Receive(z, f)
         \/ \E z \in Zones : NoSched(z)
+        \/ \E z \in Zones, v \in Vers : Fetch(z, v)
 Spec == Init /\ [][Next]_vars
 
 -----------------------------------------------------------------------------
@@ -87,6 +136,17 @@ Spec == Init /\ [][Next]_vars
 AssembledV(x, z, g) == x \in {"unset", "none"}
                        \/ (x \in Vers /\ ZoneOf[x] = z /\ FragsOf(x) \subseteq g)
 SameOrNone == \A z \in Zones : AssembledV(full[z], z, got[z])
+
+(* ... and when the library collects the reply packets itself, "the same schedule or no schedule" is what the call
+   returns - not an exception.  Scope = the statement's quantifier: the reply packets of ONE schedule (any order,
+   repeats, overheard or fetched): everything the zone has been given so far belongs to the version the controller
+   holds.  A fetch after the controller's schedule has been replaced is C18's ("the schedule being changed on the
+   controller", where "an error" is an allowed end): e.g. a set of another length + a one-fragment version gives a
+   complete set that init_payload_set never processes, next() finds no None, RuntimeError - once, the next call works. *)
+InScope(z, v, g) == ZoneOf[v] = z /\ g \subseteq FragsOf(v)
+FetchClean == (h.ev[1] = "fetch" /\ InScope(h.ev[2], h.ev[3], h.pre.got[h.ev[2]])) => h.exc = ""
+\* (with the default list shared - the pinned commit - a one-fragment set equals EMPTY_PAYLOAD_SET: "none")
+FetchSame  == (OwnDefault /\ h.ev[1] = "fetch" /\ InScope(h.ev[2], h.ev[3], h.pre.got[h.ev[2]])) => full[h.ev[2]] = h.ev[3]
 
 (* With a default list per Schedule (OwnDefault) the module-level constant is never written (the shared list was
    written in place by one-fragment schedules, after which every Schedule's "empty" set held that fragment and the
